@@ -11,6 +11,11 @@ What is modelled
   sequences of requests, checks that the loop-free chains (`Admissible`) are exactly the accepted answers
   (AdmissibleSound, AdmissibleIffReachable, AdmissibleAccepted) and prints one case per (graph, request sequence)
   with `reach` and the admissible chains of every request.
+  Part 1b (ConvAlgo): FindConversionChain transcribed step by step (paths cache persisting over requests, the
+  extension loop, loop guards, NextRules, Go slices as backing array + length + capacity, map iteration order as
+  interleaving); TLC checks AnswerSound, AnswerComplete, CacheValid, Terminates on the model of the code after the
+  proposed fixes and finds F14/F15/F24 in the as-it-was variants (Algo_asis_*.cfg). Design check only: the binding
+  to the code is the case replay of part 1.
   Part 2 (ConvApply): one action per step of the event-handler loop; hook outcome per step in {exit1, empty,
   malformed, failmsg, ok, drop, extra}; invariants InChainOrder, StopsAtFirstFailure, FailedCarriesHookMessage,
   SuccessOnlyIfAllOkAndCountMatches, ServedWhenAllOk; Apply_asis_*.cfg show TLC finding F16/F17 in the model of the
@@ -55,6 +60,8 @@ SEARCH_CFGS = {
                  "MC_deep3.cfg", "MC_deepmix.cfg"],
 }
 APPLY_CFG = {"quick": "Apply_quick.cfg", "thorough": "Apply_thorough.cfg"}
+ALGO_CFGS = {"quick": ["Algo_quick.cfg"], "thorough": ["Algo_names.cfg", "Algo_spell.cfg", "Algo_groups.cfg", "Algo_deep.cfg"]}
+ALGO_ASIS = [("Algo_asis_substr.cfg", "AnswerSound"), ("Algo_asis_alias.cfg", "CacheValid"), ("Algo_asis_loopguard.cfg", "AnswerComplete")]
 ECHO_SAMPLE = {"quick": 1500, "thorough": 6000}
 FAIL_KINDS = ("exit1", "empty", "malformed", "failmsg")
 
@@ -129,10 +136,17 @@ def search_batch(ctx, bins, cfg, cases, rnd, stats):
         if nontrivial_search(c):
             stats["nontrivial"] += 1
         if not rr["ok"]:
-            sig = rr["sig"]
-            if sig == "C15/search/not-found" and c.get("dupname"):
-                sig += "/same-name-two-groups"
-            ctx.fail(sig, rr["detail"], {"kind": "search", "cfg": cfg, "case": strip_search(c)})
+            ctx.fail(rr.get("sig", "C15/crash"), rr.get("detail", ""), {"kind": "search", "cfg": cfg, "case": strip_search(c)})
+            stats["failed"] += 1
+            continue
+        notfound = set(rr.get("notfound") or [])
+        for qi in sorted(notfound):
+            q = c["qs"][qi]
+            sig = "C15/search/not-found" + ("/same-name-two-groups" if c.get("dupname") else "")
+            earlier = ["%s->%s" % (x["from"], x["to"]) for x in c["qs"][:qi]]
+            ctx.fail(sig, "rules %s: request %d %s->%s got no chain although one exists (e.g. %s); earlier requests on the same storage: %s"
+                     % (c["rules"], qi + 1, q["from"], q["to"], [c["rules"][i - 1] for i in q["adm"][0]], earlier),
+                     {"kind": "search", "cfg": cfg, "case": strip_search(c)})
             stats["failed"] += 1
         pend = {p["q"]: p for p in rr.get("pending", [])}
         for p in pend.values():
@@ -140,7 +154,7 @@ def search_batch(ctx, bins, cfg, cases, rnd, stats):
             records.append({"id": len(records), "ar": c["arules"], "f": q["f"], "t": q["t"], "ans": p["ans"]})
             origin.append((i, p["q"], True, p["text"], p.get("hint", "")))
         for qi, ans in enumerate(rr.get("answers") or []):
-            if qi in pend or (not rr["ok"] and rr.get("q", 0) == qi):
+            if qi in pend or qi in notfound:
                 continue
             q = c["qs"][qi]
             records.append({"id": len(records), "ar": c["arules"], "f": q["f"], "t": q["t"], "ans": ans})
@@ -231,7 +245,7 @@ def new_stats():
 def check_c15(ctx):
     rnd = random.Random(ctx.seed)
     stats = new_stats()
-    pool = concurrent.futures.ThreadPoolExecutor(max_workers=2)
+    pool = concurrent.futures.ThreadPoolExecutor(max_workers=3)
     if getattr(ctx, "replay", None):
         bins = {"conv": vlib.go_build(ctx, "conv"), "convhook": vlib.go_build(ctx, "convhook")}
         return replay_one(ctx, bins)
@@ -247,6 +261,10 @@ def check_c15(ctx):
                           want_prints=False)
     f_asis2 = pool.submit(vlib.tlc, ctx, SPEC, "ConvApply", "Apply_asis_count.cfg", timeout=300, workers=2,
                           expect_violation="SuccessOnlyIfAllOkAndCountMatches", want_prints=False)
+    f_algo = [(cfg, pool.submit(vlib.tlc, ctx, SPEC, "ConvAlgoMC", cfg, timeout=ctx.pick(300, 1800), workers=4, expect_violation=False,
+                                want_prints=False)) for cfg in ALGO_CFGS[ctx.tier]]
+    f_algo_asis = [(cfg, inv, pool.submit(vlib.tlc, ctx, SPEC, "ConvAlgoMC", cfg, timeout=300, workers=2, expect_violation=inv,
+                                          want_prints=False)) for cfg, inv in ALGO_ASIS]
     bins = {"conv": vlib.go_build(ctx, "conv"), "convhook": vlib.go_build(ctx, "convhook")}
 
     # ---- part 2: application protocol ----
@@ -290,6 +308,14 @@ def check_c15(ctx):
         del cases
     a1, a2 = f_asis1.result(), f_asis2.result()
     ctx.log("TLC as-it-was models: Apply_asis_failmsg violates %s, Apply_asis_count violates %s (as expected)" % (a1["violated"], a2["violated"]))
+    # ---- the search as an algorithm (design check of chain.go's loop, cache and slices) ----
+    for cfg, fut in f_algo:
+        r = fut.result()
+        ctx.log("TLC %s (algorithm model, after the fixes): %d distinct states, depth %d, %.0fs; AnswerSound/AnswerComplete/CacheValid/Terminates hold"
+                % (cfg, r["distinct"], r["depth"], r["wall_s"]))
+    for cfg, inv, fut in f_algo_asis:
+        r = fut.result()
+        ctx.log("TLC %s (algorithm model, as it was) violates %s as expected" % (cfg, r["violated"]))
     pool.shutdown()
 
     if stats["found"] == 0 or stats["nontrivial"] == 0:
